@@ -129,7 +129,14 @@ class BasicContiguousVector<cntgs::Options<Option...>, Parameter...>
     {
     }
 
-    BasicContiguousVector(BasicContiguousVector&&) = default;
+    // A moved-from vector owns no block: it must not keep reporting the capacity of the block it gave away.
+    BasicContiguousVector(BasicContiguousVector&& other) noexcept
+        : max_element_count_(other.max_element_count_),
+          memory_(std::move(other.memory_)),
+          locator_(std::move(other.locator_))
+    {
+        other.max_element_count_ = {};
+    }
 
     BasicContiguousVector& operator=(const BasicContiguousVector& other)
     {
@@ -472,6 +479,7 @@ class BasicContiguousVector<cntgs::Options<Option...>, Parameter...>
         destruct();
         locator_->deallocate(max_element_count_, get_allocator());
         max_element_count_ = other.max_element_count_;
+        other.max_element_count_ = {};
         memory_ = std::move(other.memory_);
         locator_ = std::move(other.locator_);
     }
